@@ -3,7 +3,7 @@ import NumbatModel.Model.QtyProg
 /-! The `mprog` request of the C01 driver: a sequence of `let` right-hand sides in the program fragment of
 `Model/QtyProg.lean`, evaluated by `runProg`'s definitions at `Float`.
 
-  mprog D₁ D₂ …      with  D ::= (let E) | (fn ARITY E)
+  mprog D₁ D₂ …      with  D ::= (let E) | (fn ARITY E) | (fn ARITY (wheres E…) E)
                            E ::= (num BITS) | (unit name:m3:1/1) | (var I) | (loc I) | (call F E…) | (neg E) | (add E E) | (sub E E)
                                | (mul E E) | (div E E) | (pow E num/den) | (conv E E) | (lt E E) | (gt E E)
                                | (le E E) | (ge E E) | (eq E E) | (ne E E) | (and E E) | (or E E) | (not E)
@@ -77,6 +77,15 @@ def parseP (st : St) : Nat → List String → Option (PExpr Float × List Strin
       | _ => none
     | _ => none
 
+/-- expressions up to the closing parenthesis of the list -/
+def parseList (st : St) : Nat → List String → Option (List (PExpr Float) × List String)
+  | 0, _ => none
+  | _, ")" :: rest => some ([], rest)
+  | fuel + 1, toks => do
+    let (e, rest) ← parseP st (toks.length + 1) toks
+    let (es, rest) ← parseList st fuel rest
+    pure (e :: es, rest)
+
 def parseStmt (st : St) (toks : List String) : Option (PStmt Float × List String) :=
   match toks with
   | "(" :: "let" :: rest => do
@@ -84,11 +93,18 @@ def parseStmt (st : St) (toks : List String) : Option (PStmt Float × List Strin
     match rest with
     | ")" :: rest => pure (.letv e, rest)
     | _ => none
+  | "(" :: "fn" :: n :: "(" :: "wheres" :: rest => do
+    let n ← n.toNat?
+    let (ws, rest) ← parseList st (rest.length + 1) rest
+    let (e, rest) ← parseP st (rest.length + 1) rest
+    match rest with
+    | ")" :: rest => pure (.fn ⟨n, ws, e⟩, rest)
+    | _ => none
   | "(" :: "fn" :: n :: rest => do
     let n ← n.toNat?
     let (e, rest) ← parseP st (rest.length + 1) rest
     match rest with
-    | ")" :: rest => pure (.fn ⟨n, e⟩, rest)
+    | ")" :: rest => pure (.fn ⟨n, [], e⟩, rest)
     | _ => none
   | _ => none
 
